@@ -118,6 +118,19 @@ Proof.
 Qed.
 Print Assumptions C07_strict_kept.
 
+(* strict_graph is established by the strict constructor for every well-formed graph handed to it
+   (its arcs are re-filtered; a depot self-arc handed over must keep a waiting vehicle inside the depot
+   window), and kept by add_node *)
+Theorem C07_strict_established : forall g0 g,
+  Inv g0 -> self_arcs_ok g0 -> seq_init true g0 = Ok g -> strict_graph g.
+Proof. exact seq_init_strict. Qed.
+Print Assumptions C07_strict_established.
+
+Theorem C07_strict_kept_add_node : forall g nm dem lo hi g',
+  Inv g -> strict_graph g -> add_node g nm dem lo hi = Ok g' -> strict_graph g'.
+Proof. exact strict_graph_add_node. Qed.
+Print Assumptions C07_strict_kept_add_node.
+
 (* ---------- non-vacuity ---------- *)
 (* strict class; depot D (0, inf), customers A (0,5), B (1,6); arcs D->A, A->B, B->D, A->D, D->B;
    two vehicles (the second with surcharge 3), four positions *)
